@@ -170,9 +170,10 @@ Fixpoint good_run (s : state) (ls : list label) : bool :=
 Definition mkp (id : Z) (pay : N) (ow : bool) : packet := {| p_id := id; p_pay := pay; p_oneway := ow |}.
 
 (* ---- trace validation ---- *)
-(* observed: the labels reconstructed from the implementation's event log, and per call (in registration order) the
-   payload its caller got (None = error / timeout / one-way) *)
-Definition c08_trace_case := (list label * list (option N))%type.
+(* observed: the labels reconstructed from the implementation's event log; per call (in registration order) the
+   payload its caller got (None = error / timeout / one-way); snapshots of the implementation's table taken while calls
+   were outstanding (number of labels before the snapshot, ids found); the ids left in the table at the end *)
+Definition c08_trace_case := (list label * list (option N) * list (nat * list Z) * list Z)%type.
 
 Definition outcome_matches (c : call) (o : option N) : bool :=
   match c_pc c, o with
@@ -188,12 +189,21 @@ Fixpoint all2 {A B} (f : A -> B -> bool) (a : list A) (b : list B) : bool :=
   | _, _ => false
   end.
 
+(* a snapshot taken after the first n labels: every id the implementation's table held is an entry of the model's table
+   (the log places a registration before the real Store and a return after the real Delete, so the model's table is
+   the larger one while calls come and go) *)
+Definition snap_ok (ls : list label) (sn : nat * list Z) : bool :=
+  match run init (firstn (fst sn) ls) with
+  | Some s => forallb (fun id => match lookup id (table s) with Some _ => true | None => false end) (snd sn)
+  | None => false
+  end.
+
 (* the trace is a run of the machine in which every registration is good, every call has returned with the observed
-   outcome, and the table is empty again *)
+   outcome, the snapshots agree, and both tables are empty again *)
 Definition accepts (c : c08_trace_case) : bool :=
-  let '(ls, obs) := c in
-  good_run init ls &&
+  let '(ls, obs, snaps, lft) := c in
+  good_run init ls && forallb (snap_ok ls) snaps &&
   match run init ls with
-  | Some s => all2 outcome_matches (calls s) obs && match table s with [] => true | _ => false end
+  | Some s => all2 outcome_matches (calls s) obs && match table s, lft with [], [] => true | _, _ => false end
   | None => false
   end.
